@@ -191,3 +191,189 @@ Definition parse (ts : list tok) : option eexp :=
   | Some (e, []) => Some e
   | _ => None
   end.
+
+(* ------------------------------------------------------------------ *)
+(* the parser is faithful: what it returns prints back to what it consumed *)
+
+Lemma prT_cons f t : t <> [] -> prT (f :: t) = prF f ++ TAnd :: prT t.
+Proof. destruct t; [congruence|reflexivity]. Qed.
+Lemma prE_cons t e : e <> [] -> prE (t :: e) = prT t ++ TOr :: prE e.
+Proof. destruct e; [congruence|reflexivity]. Qed.
+
+Lemma print_parse : forall n,
+  (forall ts f r, pF n ts = Some (f, r) -> ts = prF f ++ r /\ wfF f = true) /\
+  (forall ts t r, pT n ts = Some (t, r) -> ts = prT t ++ r /\ wfT t = true) /\
+  (forall ts e r, pE n ts = Some (e, r) -> ts = prE e ++ r /\ wfE e = true).
+Proof.
+  induction n as [|n [IHF [IHT IHE]]]; [repeat split; discriminate|].
+  repeat split.
+  - (* F *) cbn [pF] in H. destruct ts as [|[a| | | | |] ts']; try discriminate.
+    + inversion H; subst. reflexivity.
+    + destruct (pF n ts') as [[g r']|] eqn:E; [|discriminate]. inversion H; subst.
+      destruct (IHF _ _ _ E) as [-> _]. reflexivity.
+    + destruct (pE n ts') as [[e [|[a| | | | |] r']]|] eqn:E; try discriminate. inversion H; subst.
+      destruct (IHE _ _ _ E) as [-> _]. cbn [prF]. fold prT. 
+      change (sep TOr (map (fun t => sep TAnd (map prF t)) e)) with (prE e).
+      cbn [app]. rewrite <- app_assoc. reflexivity.
+  - cbn [pF] in H. destruct ts as [|[a| | | | |] ts']; try discriminate.
+    + inversion H; subst. reflexivity.
+    + destruct (pF n ts') as [[g r']|] eqn:E; [|discriminate]. inversion H; subst.
+      destruct (IHF _ _ _ E) as [_ Hw]. exact Hw.
+    + destruct (pE n ts') as [[e [|[a| | | | |] r']]|] eqn:E; try discriminate. inversion H; subst.
+      destruct (IHE _ _ _ E) as [_ Hw]. exact Hw.
+  - (* T *) cbn [pT] in H. destruct (pF n ts) as [[f r']|] eqn:E; [|discriminate].
+    destruct (IHF _ _ _ E) as [-> _].
+    destruct r' as [|[a| | | | |] r'']; try (inversion H; subst; unfold prT; cbn; reflexivity).
+    destruct (pT n r'') as [[t' r3]|] eqn:E2; [|discriminate]. inversion H; subst.
+    destruct (IHT _ _ _ E2) as [-> Hw].
+    assert (t' <> []) by (destruct t'; [discriminate Hw|discriminate]).
+    rewrite prT_cons by assumption. rewrite <- app_assoc. reflexivity.
+  - cbn [pT] in H. destruct (pF n ts) as [[f r']|] eqn:E; [|discriminate].
+    destruct (IHF _ _ _ E) as [_ Hwf].
+    destruct r' as [|[a| | | | |] r'']; try (inversion H; subst; unfold wfT; cbn; rewrite Hwf; reflexivity).
+    destruct (pT n r'') as [[t' r3]|] eqn:E2; [|discriminate]. inversion H; subst.
+    destruct (IHT _ _ _ E2) as [_ Hw]. unfold wfT in *. cbn [forallb negb andb] in *.
+    apply andb_prop in Hw. destruct Hw as [_ Hw]. rewrite Hwf, Hw. reflexivity.
+  - (* E *) cbn [pE] in H. destruct (pT n ts) as [[t r']|] eqn:E; [|discriminate].
+    destruct (IHT _ _ _ E) as [-> _].
+    destruct r' as [|[a| | | | |] r'']; try (inversion H; subst; unfold prE; cbn; reflexivity).
+    destruct (pE n r'') as [[e' r3]|] eqn:E2; [|discriminate]. inversion H; subst.
+    destruct (IHE _ _ _ E2) as [-> Hw].
+    assert (e' <> []) by (destruct e'; [discriminate Hw|discriminate]).
+    rewrite prE_cons by assumption. rewrite <- app_assoc. reflexivity.
+  - cbn [pE] in H. destruct (pT n ts) as [[t r']|] eqn:E; [|discriminate].
+    destruct (IHT _ _ _ E) as [_ Hwf].
+    destruct r' as [|[a| | | | |] r'']; try (inversion H; subst; unfold wfE; cbn; rewrite Hwf; reflexivity).
+    destruct (pE n r'') as [[e' r3]|] eqn:E2; [|discriminate]. inversion H; subst.
+    destruct (IHE _ _ _ E2) as [_ Hw]. unfold wfE in *. cbn [forallb negb andb] in *.
+    apply andb_prop in Hw. destruct Hw as [_ Hw]. rewrite Hwf, Hw. reflexivity.
+Qed.
+
+Lemma parse_sound ts e : parse ts = Some e -> ts = prE e /\ wfE e = true.
+Proof.
+  unfold parse. destruct (pE _ ts) as [[e' [|x r]]|] eqn:E; try discriminate.
+  intros H; inversion H; subst.
+  destruct (proj2 (proj2 (print_parse _)) _ _ _ E) as [-> Hw]. rewrite app_nil_r. tauto.
+Qed.
+
+(* ------------------------------------------------------------------ *)
+(* explicit fuel: the size of a tree is enough, and [parse]'s fuel covers it *)
+
+Lemma szT_cons f t : szT (f :: t) = szF f + szT t.
+Proof. unfold szT. cbn [map lsum]. lia. Qed.
+Lemma szE_cons t e : szE (t :: e) = szT t + szE e.
+Proof. unfold szE. cbn [map lsum]. lia. Qed.
+Lemma szF_par e : szF (FPar e) = S (szE e).
+Proof. reflexivity. Qed.
+Lemma wfT_cons f t : wfT (f :: t) = true -> t <> [] -> wfF f = true /\ wfT t = true.
+Proof.
+  unfold wfT. cbn [negb forallb andb]. intros H Hne. apply andb_prop in H. destruct H as [-> H].
+  split; [reflexivity|]. destruct t; [congruence|exact H].
+Qed.
+Lemma wfE_cons t e : wfE (t :: e) = true -> e <> [] -> wfT t = true /\ wfE e = true.
+Proof.
+  unfold wfE. cbn [negb forallb andb]. intros H Hne. apply andb_prop in H. destruct H as [-> H].
+  split; [reflexivity|]. destruct e; [congruence|exact H].
+Qed.
+Lemma wfT_single f : wfT [f] = true -> wfF f = true.
+Proof. unfold wfT. cbn. rewrite andb_true_r. tauto. Qed.
+Lemma wfE_single t : wfE [t] = true -> wfT t = true.
+Proof. unfold wfE. cbn [negb forallb andb]. rewrite andb_true_r. tauto. Qed.
+
+Lemma roundtrip_sz : forall k,
+  (forall f rest, szF f <= k -> wfF f = true -> pF k (prF f ++ rest) = Some (f, rest)) /\
+  (forall t rest, szT t <= k -> wfT t = true -> no_and rest -> pT k (prT t ++ rest) = Some (t, rest)) /\
+  (forall e rest, szE e <= k -> wfE e = true -> no_and rest -> no_or rest ->
+                  pE k (prE e ++ rest) = Some (e, rest)).
+Proof.
+  induction k as [|k [IHF [IHT IHE]]].
+  - repeat split; intros x rest Hs; exfalso.
+    + pose proof (szF_pos x). lia.
+    + unfold szT in Hs; lia.
+    + unfold szE in Hs; lia.
+  - repeat split.
+    + intros f rest Hs Hwf. destruct f as [a|g|e].
+      * reflexivity.
+      * cbn [szF] in Hs. cbn [wfF] in Hwf. cbn [prF app pF]. rewrite (IHF g rest ltac:(lia) Hwf). reflexivity.
+      * rewrite szF_par in Hs.
+        assert (Hwe : wfE e = true) by exact Hwf.
+        cbn [prF pF app].
+        change (sep TOr (map (fun t => sep TAnd (map prF t)) e)) with (prE e).
+        rewrite <- app_assoc. cbn [app].
+        rewrite (IHE e (TR :: rest) ltac:(lia) Hwe I I). reflexivity.
+    + intros t rest Hs Hwf Hna. destruct t as [|f t']; [discriminate|].
+      destruct t' as [|f2 t''].
+      * apply wfT_single in Hwf. rewrite szT_cons in Hs. unfold szT in Hs. cbn [map lsum] in Hs.
+        unfold prT. cbn [map sep pT]. rewrite (IHF f rest ltac:(lia) Hwf).
+        destruct rest as [|[a| | | | |] r]; try reflexivity. destruct Hna.
+      * destruct (wfT_cons _ _ Hwf ltac:(discriminate)) as [Hwf1 Hwf2].
+        rewrite szT_cons in Hs. pose proof (szF_pos f).
+        assert (1 <= szT (f2 :: t'')) by (unfold szT; lia).
+        rewrite prT_cons by discriminate. rewrite <- app_assoc. cbn [app pT].
+        rewrite (IHF f _ ltac:(lia) Hwf1).
+        rewrite (IHT (f2 :: t'') rest ltac:(lia) Hwf2 Hna). reflexivity.
+    + intros e rest Hs Hwf Hna Hno. destruct e as [|t e']; [discriminate|].
+      destruct e' as [|t2 e''].
+      * apply wfE_single in Hwf. rewrite szE_cons in Hs. unfold szE in Hs. cbn [map lsum] in Hs.
+        unfold prE. cbn [map sep pE]. rewrite (IHT t rest ltac:(lia) Hwf Hna).
+        destruct rest as [|[a| | | | |] r]; try reflexivity. destruct Hno.
+      * destruct (wfE_cons _ _ Hwf ltac:(discriminate)) as [Hwf1 Hwf2].
+        rewrite szE_cons in Hs.
+        assert (1 <= szT t) by (unfold szT; lia).
+        assert (1 <= szE (t2 :: e'')) by (unfold szE; lia).
+        rewrite prE_cons by discriminate. rewrite <- app_assoc. cbn [app pE].
+        rewrite (IHT t (TOr :: prE (t2 :: e'') ++ rest) ltac:(lia) Hwf1 I).
+        rewrite (IHE (t2 :: e'') rest ltac:(lia) Hwf2 Hna Hno). reflexivity.
+Qed.
+
+Lemma len_prT_cons f t : t <> [] -> List.length (prT (f :: t)) = (List.length (prF f) + 1 + List.length (prT t))%nat.
+Proof. intros H. rewrite prT_cons by exact H. rewrite app_length. cbn. lia. Qed.
+Lemma len_prE_cons t e : e <> [] -> List.length (prE (t :: e)) = (List.length (prT t) + 1 + List.length (prE e))%nat.
+Proof. intros H. rewrite prE_cons by exact H. rewrite app_length. cbn. lia. Qed.
+
+Lemma sz_bound : forall k,
+  (forall f, szF f <= k -> wfF f = true -> szF f <= 3 * List.length (prF f)) /\
+  (forall t, szT t <= k -> wfT t = true -> szT t <= 3 * List.length (prT t) + 1) /\
+  (forall e, szE e <= k -> wfE e = true -> szE e <= 3 * List.length (prE e) + 2).
+Proof.
+  induction k as [|k [IHF [IHT IHE]]].
+  - repeat split; intros x Hs; exfalso.
+    + pose proof (szF_pos x). lia.
+    + unfold szT in Hs; lia.
+    + unfold szE in Hs; lia.
+  - repeat split.
+    + intros f Hs Hwf. destruct f as [a|g|e].
+      * cbn. lia.
+      * cbn [szF] in *. cbn [wfF] in Hwf. cbn [prF List.length]. specialize (IHF g ltac:(lia) Hwf). lia.
+      * rewrite szF_par in *. assert (Hwe : wfE e = true) by exact Hwf.
+        specialize (IHE e ltac:(lia) Hwe). cbn [prF].
+        change (sep TOr (map (fun t => sep TAnd (map prF t)) e)) with (prE e).
+        cbn [List.length]. rewrite app_length. cbn [List.length]. lia.
+    + intros t Hs Hwf. destruct t as [|f t']; [discriminate|]. destruct t' as [|f2 t''].
+      * apply wfT_single in Hwf. rewrite szT_cons in *. unfold szT in *. cbn [map lsum] in *.
+        unfold prT. cbn [map sep]. specialize (IHF f ltac:(lia) Hwf). lia.
+      * destruct (wfT_cons _ _ Hwf ltac:(discriminate)) as [Hwf1 Hwf2].
+        rewrite szT_cons in *. pose proof (szF_pos f).
+        assert (1 <= szT (f2 :: t'')) by (unfold szT; lia).
+        rewrite len_prT_cons by discriminate.
+        specialize (IHF f ltac:(lia) Hwf1). specialize (IHT (f2 :: t'') ltac:(lia) Hwf2). lia.
+    + intros e Hs Hwf. destruct e as [|t e']; [discriminate|]. destruct e' as [|t2 e''].
+      * apply wfE_single in Hwf. rewrite szE_cons in *. unfold szE in *. cbn [map lsum] in *.
+        unfold prE. cbn [map sep]. specialize (IHT t ltac:(lia) Hwf). lia.
+      * destruct (wfE_cons _ _ Hwf ltac:(discriminate)) as [Hwf1 Hwf2].
+        rewrite szE_cons in *.
+        assert (1 <= szT t) by (unfold szT; lia).
+        assert (1 <= szE (t2 :: e'')) by (unfold szE; lia).
+        rewrite len_prE_cons by discriminate.
+        specialize (IHT t ltac:(lia) Hwf1). specialize (IHE (t2 :: e'') ltac:(lia) Hwf2). lia.
+Qed.
+
+(* completeness of [parse] on printed trees, with its concrete fuel *)
+Theorem parse_complete : forall e, wfE e = true -> parse (prE e) = Some e.
+Proof.
+  intros e Hw. unfold parse.
+  pose proof (proj2 (proj2 (sz_bound (szE e))) e (le_n _) Hw) as Hb.
+  assert (Hfuel : szE e <= 3 * List.length (prE e) + 3) by lia.
+  pose proof (proj2 (proj2 (roundtrip_sz (szE e))) e [] (le_n _) Hw I I) as Hp.
+  rewrite app_nil_r in Hp. rewrite (monoE _ _ _ _ Hp Hfuel). reflexivity.
+Qed.
